@@ -21,7 +21,7 @@ SgnI(a) == IF a < 0 THEN -1 ELSE IF a > 0 THEN 1 ELSE 0
 \* floor division of native integers by positive k (TLC's \div and % are already floor/modulo)
 Init == x = 0 /\ y = 0 /\ bx = Zero /\ by = Zero /\ g = One /\ h = Zero /\ n = 0
 
-Shift == y' = x /\ by' = bx /\ n' = n + 1
+Shift == n < MaxSteps /\ y' = x /\ by' = bx /\ n' = n + 1
 
 AddStep == \E d \in Deltas : AbsI(x + d) < Limit /\ x' = x + d /\ bx' = Add(bx, FromInt(d)) /\ Shift /\ UNCHANGED <<g, h>>
 SubStep == \E d \in Deltas : AbsI(x - d) < Limit /\ x' = x - d /\ bx' = Sub(bx, FromInt(d)) /\ Shift /\ UNCHANGED <<g, h>>
@@ -29,12 +29,12 @@ MulStep == \E k \in Factors : AbsI(x) < Limit \div k /\ x' = x * k /\ bx' = MulS
 NegMulStep == \E k \in Factors : AbsI(x) < Limit \div k /\ x' = x * (0 - k) /\ bx' = MulSmall(bx, 0 - k) /\ Shift /\ UNCHANGED <<g, h>>
 DivStep == \E k \in Factors : x' = x \div k /\ bx' = DivModSmall(bx, k).q /\ Shift /\ UNCHANGED <<g, h>>
 NegStep == x' = 0 - x /\ bx' = Neg(bx) /\ Shift /\ UNCHANGED <<g, h>>
-BigMul == \E k \in BigFactors : MNumDigits(g.mag) < MaxDigits /\ g' = MulSmall(g, k) /\ h' = g /\ n' = n + 1 /\ UNCHANGED <<x, y, bx, by>>
-BigAdd == \E d \in Deltas : g' = Add(g, FromInt(d)) /\ h' = g /\ n' = n + 1 /\ UNCHANGED <<x, y, bx, by>>
-BigNeg == g' = Neg(g) /\ h' = g /\ n' = n + 1 /\ UNCHANGED <<x, y, bx, by>>
-BigSq  == MNumDigits(g.mag) < MaxDigits /\ g' = Mul(g, h) /\ h' = g /\ n' = n + 1 /\ UNCHANGED <<x, y, bx, by>>
+BigMul == n < MaxSteps /\ \E k \in BigFactors : MNumDigits(g.mag) < MaxDigits /\ g' = MulSmall(g, k) /\ h' = g /\ n' = n + 1 /\ UNCHANGED <<x, y, bx, by>>
+BigAdd == n < MaxSteps /\ \E d \in Deltas : g' = Add(g, FromInt(d)) /\ h' = g /\ n' = n + 1 /\ UNCHANGED <<x, y, bx, by>>
+BigNeg == n < MaxSteps /\ g' = Neg(g) /\ h' = g /\ n' = n + 1 /\ UNCHANGED <<x, y, bx, by>>
+BigSq  == n < MaxSteps /\ MNumDigits(g.mag) < MaxDigits /\ g' = Mul(g, h) /\ h' = g /\ n' = n + 1 /\ UNCHANGED <<x, y, bx, by>>
 
-Next == n < MaxSteps /\ (AddStep \/ SubStep \/ MulStep \/ NegMulStep \/ DivStep \/ NegStep \/ BigMul \/ BigAdd \/ BigNeg \/ BigSq)
+Next == AddStep \/ SubStep \/ MulStep \/ NegMulStep \/ DivStep \/ NegStep \/ BigMul \/ BigAdd \/ BigNeg \/ BigSq
 Spec == Init /\ [][Next]_vars
 
 -----------------------------------------------------------------------------
